@@ -7,7 +7,8 @@ CONSTANTS
   SvcOf <- MCSvcOf3
   Manual <- MCManual
   MaxChanges = 3
+  MaxFaults = 1
   PoisonTables = FALSE
-INVARIANTS TypeOK QuiescentCorrect LastGood Isolation
+INVARIANTS TypeOK QuiescentCorrect LastGood Isolation RoutedWerePassing
 PROPERTIES MonotoneSnapshot InvalidKeeps NextValidApplied
 CHECK_DEADLOCK FALSE
